@@ -333,3 +333,12 @@ Definition match_version_prerelease (c : constraint) (v : version) : res bool :=
   if is_wildcard_v v then Ok false else set_match_version (c_set c) v true.
 
 Definition is_simple (c : constraint) : bool := c_simple c.
+
+(* Constraint.Match(version string): parse, false on error, then match (a wildcard version is
+   NOT refused here, unlike in MatchVersion).  resolve.MatchRequirement for npm keeps the
+   versions v with constraint.Match(v.Version). *)
+Definition match_string (pv : system -> bool -> bytes -> res parse_out) (c : constraint) (s : bytes) : res bool :=
+  po <- parse_public pv (c_sys c) s;;
+  if po_err po then Ok false else
+  v <- opt_version (po_v po);;
+  constraint_match c v.
